@@ -760,6 +760,21 @@ func (g *Gen) localsAt(b *ssa.BasicBlock, atStart bool, st State) map[string]T {
 			break
 		}
 	}
+	// "iter": the number of completed iterations of the innermost counted loop around b -- the
+	// induction variable of the loop (a header phi that starts at a constant and is incremented by
+	// one on every back edge) minus its start. It is the same number for `for i := 0; i < n; i++`
+	// and for `for i := range s`, so an invariant stated over iter survives the one being
+	// rewritten into the other.
+	for blk := b; blk != nil; blk = blk.Idom() {
+		li := g.loops[blk]
+		if li == nil || !li.body[b] {
+			continue
+		}
+		if t, ok := g.inductionCount(blk, li); ok {
+			vars["iter"] = t
+		}
+		break
+	}
 	// variables that live in a cell (address taken / captured): their current content
 	cellVars := map[string]bool{}
 	for _, blk := range g.fn.Blocks {
@@ -827,6 +842,70 @@ func (g *Gen) localsAt(b *ssa.BasicBlock, atStart bool, st State) map[string]T {
 		}
 	}
 	return vars
+}
+
+// inductionCount: see "iter" in localsAt.
+func (g *Gen) inductionCount(h *ssa.BasicBlock, li *loopInfo) (T, bool) {
+	var best *ssa.Phi
+	var start string
+	for _, in := range h.Instrs {
+		ph, ok := in.(*ssa.Phi)
+		if !ok {
+			break
+		}
+		bt, ok := ph.Type().Underlying().(*types.Basic)
+		if !ok || bt.Info()&types.IsInteger == 0 || bt.Info()&types.IsUnsigned != 0 {
+			continue
+		}
+		c0 := ""
+		good := true
+		for i, e := range ph.Edges {
+			if li.body[h.Preds[i]] {
+				// back edge: phi + 1
+				bo, ok := e.(*ssa.BinOp)
+				if !ok || bo.Op != token.ADD {
+					good = false
+					break
+				}
+				one := func(v ssa.Value) bool {
+					c, ok := v.(*ssa.Const)
+					return ok && c.Value != nil && c.Value.ExactString() == "1"
+				}
+				if !((bo.X == ph && one(bo.Y)) || (bo.Y == ph && one(bo.X))) {
+					good = false
+					break
+				}
+			} else {
+				c, ok := e.(*ssa.Const)
+				if !ok || c.Value == nil {
+					good = false
+					break
+				}
+				if c0 != "" && c0 != c.Value.ExactString() {
+					good = false
+					break
+				}
+				c0 = c.Value.ExactString()
+			}
+		}
+		if !good || c0 == "" {
+			continue
+		}
+		if best == nil || ph.Comment == "rangeindex" {
+			best, start = ph, c0
+		}
+	}
+	if best == nil {
+		return T{}, false
+	}
+	t, ok := g.vals[best]
+	if !ok {
+		return T{}, false
+	}
+	if strings.HasPrefix(start, "-") {
+		start = "(- " + start[1:] + ")"
+	}
+	return T{S: app("-", t.S, start), So: t.So, GoT: best.Type()}, true
 }
 
 func (g *Gen) execBlock(b *ssa.BasicBlock, initial State) {
